@@ -45,8 +45,8 @@ CLAIMED = {
     },
     "C25": {
         "level": "exploration",
-        "technique": "deterministic simulation: real Environment over simulated loader storage, file system and clock (forward / held / backwards), seeded operation histories with injected I/O errors, checked against an executable reference cache model",
-        "text": "Seeded histories (get, select, modify, delete, add, loader swap, clock tick forward/held/backwards, gc) drive a real Environment whose loaders read a simulated store / file system stamped by a simulated clock; each operation's observable result (which source version rendered, TemplateNotFound, cache length) is compared with a reference model of the cache for cache sizes 0/1/2/3/-1/400, both reload settings and four loader kinds; a separate configuration arms an EIO on one operation's open/getmtime and checks strictly again afterwards. Sampling of histories, not enumeration.",
+        "technique": "deterministic simulation: real Environment over simulated loader storage, file system and clock (forward / held / backwards), seeded operation histories with injected I/O errors, checked against an executable reference cache model; plus reader threads and an external writer interleaved by the seeded baton scheduler (source lines, LRUCache instructions, syscalls) with a strict check after quiescence",
+        "text": "Seeded histories (get, select, modify, delete, add, loader swap, clock tick forward/held/backwards, gc) drive a real Environment whose loaders read a simulated store / file system stamped by a simulated clock; each operation's observable result (which source version rendered, TemplateNotFound, cache length) is compared with a reference model of the cache for cache sizes 0/1/2/3/-1/400, both reload settings and four loader kinds; a separate configuration arms an EIO on one operation's open/getmtime and checks strictly again afterwards. One run in four is concurrent: 1-2 reader threads and an external writer (modify/delete/add) are interleaved by seeded pre-emptions inside get_template/_load_template/loader/LRUCache code and at simulated syscalls; in-flight operations may see any version current inside their window, and after quiescence every lookup must again serve the current source, be repeatable and respect the capacity. Sampling of histories and schedules, not enumeration.",
         "note": "Trusted: the reference model in props/c25.py (about 60 lines) as the statement of documented cache behaviour; it is compared only through observables, never private fields. Held-clock rewrites accept either version until the next change. Multi-directory search paths and ChoiceLoader shadowing are outside the property's quantifier and not covered.",
         "design": "DESIGN.md §4 C25, §3.5",
     },
